@@ -334,6 +334,10 @@ func init() {
 		fails[e.concreteInt(args[0], "request index")] = true
 		return nil, false
 	})
+	reg("Preempt", func(e *Exec, fv *FuncV, args []Value, cc *ssa.CallCommon) (Value, bool) {
+		e.ext["par.maxpre"] = e.concreteInt(args[0], "preemption bound")
+		return nil, false
+	})
 	reg("Terminates", func(e *Exec, fv *FuncV, args []Value, cc *ssa.CallCommon) (Value, bool) {
 		// Terminates(n, label): from here on the path may execute at most n more SSA instructions; n = 0 ends the
 		// obligation. Exceeding the budget on a feasible path is a violation of kind "wedge" (a handler that spins).
